@@ -51,6 +51,12 @@ PROPS = {
     'C01': seq_prop('c01', 150, 2500, mc=[MC_STORE_STRICT, MC_STORE_ASBUILT, MC_STORE_NEG]),
     'C02': seq_prop('c02', 120, 2000, mc=[MC_ATOMIC], more=[fam('conc', 'c02', 16, 300)]),
     'C03': seq_prop('c03', 150, 2500, mc=[MC_STORE_STRICT, MC_STORE_ASBUILT]),
+    'C04': {'level': 'model_checking', 'mc': [], 'trace': COLUMN_TRACE, 'assumptions': [],
+            'families': [
+                fam('filt', 'tlc', 40, 60, gen={'module': 'GenFilter', 'cfg': 'GenFilter.cfg', 'arg': '-chains', 'cover': 60,
+                                               'quick': {'MAXLEN': '2', 'PAIRS': 'FALSE'}, 'thorough': {'MAXLEN': '2', 'PAIRS': 'TRUE'},
+                                               'quick_all': True, 'thorough_all': True}),
+                fam('filt', 'rnd', 24, 300)]},
     'C06': seq_prop('c06', 60, 1500, mc=[MC_CONC_STRICT, MC_CONC_LOG, MC_CONC_ASBUILT, MC_CONC_NEG],
                     more=[fam('conc', 'c06', 24, 400), fam('conc', 'c06dfs', 1, 16)]),
     'C07': seq_prop('c07', 120, 2000, mc=[MC_SNAP], more=[fam('seq', 'c07k', 40, 500)]),
